@@ -199,6 +199,47 @@ pub fn overlap_strategy() -> proptest::strategy::BoxedStrategy<Scenario> {
         .boxed()
 }
 
+/// C11: one hash sees 1-3 complete sets whose payment fails, then a partial set. The partial set has
+/// no earlier attempt *pending*, so it must be held for the whole MPP timeout.
+pub fn after_failed_attempts_strategy() -> proptest::strategy::BoxedStrategy<Scenario> {
+    use proptest::prelude::*;
+    (1usize..=3, 1usize..=2, any::<bool>(), proptest::sample::select(&[5u64, 10, 30, 60][..]), any::<u64>(), 0u8..3, proptest::collection::vec(prop_oneof![3 => Just(0u8), 1 => 1u8..=14], 6))
+        .prop_map(|(failed_attempts, partial_parts, amountless, mpp, seed, drain_parts, ticks)| {
+            let cfg = Cfg { mpp_timeout_s: mpp, ..Cfg::default() };
+            let pay = PaymentSpec { preimage: 0x11, invoice_amount: if amountless { None } else { Some(1_000_000) }, tlv_amount: 1_000_000, hints: Hints::None, explicit_payee: false, recipient_ok: false, drain_parts };
+            let need = needed_total(&cfg, 1_000_000);
+            let h = |amount: u64, total: u64| HtlcSpec { pay: 0, hash_of: None, amount_msat: amount, total_msat: Some(total), forward_msat: Some(amount), cltv_expiry: 1000 + 1100, cltv_rel: 1100, forward: false, meta: Meta::Normal, extra: vec![], raw_payload: None };
+            let mut htlcs = vec![];
+            let mut steps = vec![];
+            let mut ti = 0;
+            for _ in 0..failed_attempts {
+                htlcs.push(h(need, need));
+                steps.push(Step::Deliver(0));
+                steps.push(Step::Flush);
+                steps.push(Step::PayFinish(0, PayOutcome::Error(210)));
+                steps.push(Step::Flush);
+                if ticks[ti % ticks.len()] > 0 {
+                    steps.push(Step::Tick(ticks[ti % ticks.len()]));
+                }
+                ti += 1;
+            }
+            for _ in 0..partial_parts {
+                htlcs.push(h(need / 4, need));
+                steps.push(Step::Deliver(0));
+                steps.push(Step::Flush);
+                if ticks[ti % ticks.len()] > 0 && ticks[ti % ticks.len()] < 3 {
+                    steps.push(Step::Tick(ticks[ti % ticks.len()]));
+                }
+                ti += 1;
+            }
+            let mut scn = crate::props::c13::blank(vec![pay], htlcs, seed);
+            scn.cfg = cfg;
+            scn.steps = steps;
+            scn
+        })
+        .boxed()
+}
+
 pub fn run_world_check(c: WorldCheck, tier: Tier, seed: u64) -> i32 {
     let mut s = Session::new(c.prop, tier, seed, c.level, c.rule);
     for a in ASSUMPTIONS {
@@ -208,6 +249,9 @@ pub fn run_world_check(c: WorldCheck, tier: Tier, seed: u64) -> i32 {
     s.regress::<Scenario, _>("world", &case);
     let prof = c.profile.clone();
     s.search("world", "world", tier.pick(c.cases_quick, c.cases_thorough), move || scenario_strategy(prof.clone()), &case);
+    if c.prop == "C11" {
+        s.search("world-after-failed-attempts", "world", tier.pick(150, 3000), after_failed_attempts_strategy, &case);
+    }
     if matches!(c.prop, "C02" | "C05" | "C08") {
         s.search("world-lifecycle-overlap", "world", tier.pick(300, 4000), overlap_strategy, &case);
         if tier == Tier::Thorough {
